@@ -142,10 +142,11 @@ class ListCorrector(Corrector):
             self.i = 0
 
         def __call__(self, w):
-            if self.data[self.i] == w:
+            if self.i < len(self.data) and self.data[self.i] == w:
                 return w
-            self.i += 1
-            pos = bisect_left(self.data, w, self.i)
+            # The words before position i are known to be smaller than w (the
+            # word at i itself has not been compared with w yet)
+            self.i = pos = bisect_left(self.data, w, self.i)
             if pos < len(self.data):
                 return self.data[pos]
             else:
